@@ -72,6 +72,12 @@ Theorem C16_refused_command_changes_nothing : forall group_of t c, snd (Rules.st
   fst (Rules.step group_of t c) = t /\ Rules.c_enable c = true /\ group_of (Rules.c_node c) = Rules.c_group c.
 Proof. exact RulesProofs.step_refused. Qed.
 Print Assumptions C16_refused_command_changes_nothing.
+(* a rule from a node into its own group (a self-loop) is never switched on by these commands *)
+Theorem C16_no_self_loop_configured : forall group_of c t, group_of (Rules.c_node c) = Rules.c_group c ->
+  Rules.eff (Rules.c_flag c) (Rules.c_node c) (Rules.c_group c) t = false ->
+  Rules.eff (Rules.c_flag c) (Rules.c_node c) (Rules.c_group c) (fst (Rules.step group_of t c)) = false.
+Proof. exact RulesProofs.no_self_loop. Qed.
+Print Assumptions C16_no_self_loop_configured.
 Example C16_rules_example :
   let go := fun n : N => n in
   let cs := [ {| Rules.c_flag := Rules.FSync; Rules.c_node := 1; Rules.c_group := 2; Rules.c_enable := true |};
